@@ -42,7 +42,10 @@ def main():
     try:
         mod = importlib.import_module("props." + a.prop.lower())
         mod.run(ctx)
-    except Exception:
+    except BaseException as exc:
+        if isinstance(exc, (KeyboardInterrupt, SystemExit)):
+            raise
+        # (BaseException: an `asyncio.CancelledError` that leaks out of the library is not an `Exception`)
         # The harness drives the library through its public API; an exception that escapes here means the
         # library (or the harness) did something the correspondence cannot even evaluate. That is reported as
         # an obligation that no longer checks (a harness bug would show up on the unchanged tree the same way).
